@@ -205,7 +205,13 @@ func (c *pctx) pattern(t *rapid.T, depth int, bound *[]string) string {
 				parts[i] = "\"" + pick(t, "field", fieldNames) + "\": " + c.pattern(t, depth+1, bound)
 			case 3:
 				c.feat("pattern-keyexpr")
-				parts[i] = "(" + pick(t, "keyexpr", []string{"\"a\"", "\"a\",\"b\"", "\"b\"", "\"c\",\"a\""}) + "): " + c.pattern(t, depth+1, bound)
+				key := pick(t, "keyexpr", []string{"\"a\"", "\"a\",\"b\"", "\"b\"", "\"c\",\"a\"",
+					// definitions and bindings local to the key query (must not be visible in the body)
+					"def f: \"a\"; f", "def g: \"b\"; g", "def h: \"a\", \"c\"; h", "\"a\" as $a | $a", "\"b\" as $x | $x", "def k: \"c\"; k", "GEN"})
+				if key == "GEN" {
+					key = c.child().sub(t, pPipe)
+				}
+				parts[i] = "(" + key + "): " + c.pattern(t, depth+1, bound)
 			default:
 				parts[i] = pick(t, "field", fieldNames) + ": " + c.pattern(t, depth+1, bound)
 			}
@@ -606,7 +612,25 @@ func (c *pctx) funcdef(t *rapid.T) (string, int) {
 
 func (c *pctx) builtin(t *rapid.T) string {
 	c.feat("builtin")
-	switch rapid.IntRange(0, 20).Draw(t, "builtin") {
+	switch rapid.IntRange(0, 23).Draw(t, "builtin") {
+	case 21, 22, 23:
+		// lexical scope: a definition or binding made inside a sub-expression
+		// must not be visible after it
+		c.feat("scope-probe")
+		pos := pick(t, "scopepos", []string{". as {(H): $y} | U", ". as [$y] ?// {(H): $y} | U", "reduce . as {(H): $y} (0; U)", "[foreach . as {(H): $y} (0; U)]", "{(H): 1} | U", ".[H]? | U", "\"\\(H)\" | U",
+			"if H then U else U end", "[H] | U", "(H) | U", "(H) as $y | U", "try (H) catch . | U", "limit(1; H) | U", "first(H) | U", "(H), U", "(H) // U", "reduce (H) as $y (0; U)", "[foreach (H) as $y (0; U; U)]",
+			"label $l | (H) | U", ".a[H:]? , U", "[path(H)?], U", "{a: (H)} | U", "{(H): (H)} | U", "def q(z): z; q(H) | U", "[.[]? | H] | U", "(H)? | U", "(H) as [$y] ?// $y | U", "if . then H else U end", "if . then H elif . then H else U end",
+			"if (. | not) then 1 elif H then U else U end", "try error catch (H) | U", "[(H), U]", "{a: U, b: (H), c: U}", "(H) as {(H): $y} | U", "[.[]? as {(H): $y} | U], U", "(. as {a: $y, (H): $z} | U), U", "H | U", "(H | U), U",
+			"def r: H; r, U", "def r(z): z | U; r(H)", "[range(2) | H | U], U", "@base64 \"\\(H)\" | U", "(H | ascii_downcase), U", "[H, U][1]", "(try (H | error) catch U), U", "isempty(H), U", "[limit(2; H, U)]", "(H) and U", "U + (H)", "(H) < U"})
+		var pre, h, u string
+		if rapid.Bool().Draw(t, "scopevar") {
+			v := pick(t, "scopename", []string{"$x", "$a"})
+			pre, h, u = "\"outer\" as "+v+" | ", "\"a\" as "+v+" | "+v, v
+		} else {
+			f := pick(t, "scopename", []string{"f", "g"})
+			pre, h, u = "def "+f+": \"outer\"; ", "def "+f+": \"a\"; "+f, f
+		}
+		return pre + strings.ReplaceAll(strings.ReplaceAll(pos, "H", h), "U", u)
 	case 18, 19, 20:
 		// one container with spare capacity (collected, sliced, grown) is
 		// extended or updated twice and both results are kept
